@@ -427,6 +427,21 @@ func valueOps(r *vl.Rng, ud *unitData, out *vl.Out) []*opLine {
 		item := defText(ud.prog, st.File, "struct", st.Name)
 		ls = append(ls, &opLine{text: "N " + key, driver: true, ud: ud, what: "N", nontrivial: true, item: item, check: func(ans string) string { return sameValue(ans, init) }})
 		ls = append(ls, &opLine{text: "Z " + key, driver: true, ud: ud, what: "Z", nontrivial: true, item: item, check: func(ans string) string { return sameValue(ans, init) }})
+		// a field named `_x` becomes the unexported Go field `_X`: the reflection driver cannot build such objects
+		unexported := false
+		for _, e := range u.Registry {
+			if e.Sidx == sidx {
+				for _, gf := range e.GoField {
+					if gf == "" || gf[0] == '_' || (gf[0] >= 'a' && gf[0] <= 'z') {
+						unexported = true
+					}
+				}
+			}
+		}
+		if unexported {
+			out.Count("skip.G.unexported_field")
+			continue
+		}
 		vals := []*values.Value{init.Clone(), st.Zero()}
 		for k := 0; k < 3; k++ {
 			vals = append(vals, valgen.Gen(r, u.Schema, sidx, 1+r.Intn(3), vcfg))
